@@ -2880,6 +2880,11 @@ func readBodyWithStreaming(r *bufio.Reader, contentLength, maxBodySize int, dst 
 
 func readBodyIdentity(r *bufio.Reader, maxBodySize int, dst []byte) ([]byte, error) {
 	dst = dst[:cap(dst)]
+	if maxBodySize > 0 && len(dst) > maxBodySize+1 {
+		// A reused buffer may be larger than the limit: never read more
+		// than one byte past maxBodySize into it.
+		dst = dst[:maxBodySize+1]
+	}
 	if len(dst) == 0 {
 		dst = make([]byte, 1024)
 	}
